@@ -116,7 +116,13 @@ def build(x):
     pieces += ["impl<T> NetworkMessage<T> {", ns, nb, sd, "}"]
     bm = x.enum(FB, 'BatchMode'); bm.text = '#[derive(Clone, Copy)]\n' + bm.text
     bs = x.struct(FB, 'Batcher'); bs.text = '#[verifier::reject_recursive_types(Out)]\n' + bs.text
-    pieces += [bm, bs, SPEC_IMPL]
+    ms = x.method(FB, 'BatchMode', 'max_size'); ms.name_result('r')
+    ms.add_spec('''        ensures (self matches BatchMode::Fixed(n) ==> r == n.val()), (self matches BatchMode::Adaptive(n, _) ==> r == n.val()), self is Single ==> r == 1,   // #obl:batch_mode.max_size_is_the_configured_size
+''')
+    iv = x.method(FB, 'BatchMode', 'interval'); iv.name_result('r')
+    iv.add_spec('''        ensures (self matches BatchMode::Adaptive(_, d) ==> r == Some(*d)), !(self is Adaptive) ==> r is None,   // #obl:batch_mode.only_adaptive_batching_has_a_flush_delay
+''')
+    pieces += [bm, "impl BatchMode {", ms, iv, "}", bs, SPEC_IMPL]
 
     enq = x.method(FB, 'Batcher', 'enqueue')
     enq.replace_exact('V-SUBST', 'self.last_send.elapsed() > max_delay.into()', 'clock_timeout_elapsed(&self.last_send, max_delay)',
